@@ -109,6 +109,7 @@ def rule_a(ck, R, eng, ps):
         return resolve
     nfail = nok = 0
     early = 0
+    managed = {}
     for p in ps:
         if p.end != 'return':
             continue
@@ -120,6 +121,9 @@ def rule_a(ck, R, eng, ps):
         key = 'flags:%s:%d' % (fmt(cd) if cd else '?', len(p.loops))
         if cd == C(E['REG_INIT_SUCCESS']):
             nok += 1
+            for bn, bv in R.u.enum_decls.get('RegisterTableFlags', []):
+                if bv and bv not in (INIT, DURING):
+                    managed.setdefault(bn, {}).setdefault(bit_state(v, FLAGS, bv, res), p)
             ck.verdict(si == 1 and sd == 0, 'C04.a', key + ':success', cast.where(p.node) if p.node else where,
                        'success leaves INITIALISED=1, DURING_INIT=0' if si == 1 and sd == 0 else
                        'success leaves INITIALISED=%s DURING_INIT=%s' % (si, sd))
@@ -147,6 +151,19 @@ def rule_a(ck, R, eng, ps):
                        'failure code %s returns with INITIALISED=%s DURING_INIT=%s (operations would treat the half-initialised table as usable / still in init)'
                        % (fmt(cd) if cd else None, si, sd))
     ck.floor('C04.a', 'failing returns of register_init', nfail, 9)
+    # a flag that register_init itself sets is knowledge about the table it has just looked at (a cached fact the other
+    # functions branch on): every successful initialisation has to define it - set or cleared - from the table as it is
+    # now.  Left as an EARLIER initialisation set it, it describes a table that may have been edited in between.
+    for bn, states in sorted(managed.items()):
+        if (1 in states or 0 in states) and 'same' in states:
+            p_ = states['same']
+            ck.violation('C04.a', 'flags:managed:%s' % bn, where,
+                         'register_init %s the table flag %s on some of its successful paths and leaves it as it was on others (e.g. under {%s}): after a '
+                         're-initialisation of an edited table the flag still says what held for the table of the earlier initialisation, and the functions '
+                         'that go by it (BIT_ISSET(t->flags, %s)) act on that' % ('sets' if 1 in states else 'clears', bn,
+                                                                               '; '.join(fmt(c) for c in p_.cond_terms()[-3:])[:200], bn))
+        elif 1 in states or 0 in states:
+            ck.holds('C04.a', 'flags:managed:%s' % bn, where, 'register_init defines %s on every successful path' % bn)
     ck.floor('C04.a', 'success returns of register_init', nok, 1)
 
 
